@@ -47,6 +47,13 @@ def gen_case(rnd, moduli):
             prog.append(["arrget", reg(), a, idx])
         else:
             prog.append(["arrset", a, idx, elem()])
+    if two_d and rnd.random() < 0.35:
+        # a row selected with a secret index is stored at a public position, then one cell of the stored row is written through a
+        # public row index: the write must land in the array (the stored row is a read-only view of the selection)
+        rr = reg(); prog.append(["arrget", rr, a, [secret(rnd.randrange(0, shape[0]))]])
+        pos = rnd.randrange(0, shape[0])
+        prog.append(["arrset", a, [const(pos)], rr])
+        prog.append(["arrset", a, [const(pos), index(1, False)], elem()])
     if rnd.random() < 0.4:
         # copies: Array(row) of a row read with a secret index (or Array(a) of a 1-D array), taken twice; a write into one copy
         # must not show through the other copy, the row or the original array
@@ -86,8 +93,27 @@ def twin(case):
     regs = {}
     ins = case["ins"]
     out = {}
-    for s in case["prog"]:
+    flat = []
+    def walk(stmts):
+        for s in stmts:
+            if s[0] == "guarded":
+                flat.append(("guard", s[1])); walk(s[2]); flat.append(("endguard",))
+            else: flat.append(s)
+    walk(case["prog"])
+    skip = 0
+    for s in flat:
         op = s[0]
+        if op == "guard":
+            if skip or not regs[s[1]]: skip += 1
+            continue
+        if op == "endguard":
+            if skip: skip -= 1
+            continue
+        if skip: continue
+        if op == "bin":
+            x, y = regs[s[3]], regs[s[4]]
+            regs[s[1]] = {"ge": int(x >= y), "lt": int(x < y), "eq": int(x == y)}[s[2]]
+            continue
         if op == "input": regs[s[1]] = ins[s[3]]
         elif op == "const": regs[s[1]] = s[2][1]
         elif op == "arrnew": regs[s[1]] = [regs[q] for q in s[2]]
@@ -117,6 +143,31 @@ def twin(case):
             if not (0 <= i < len(v)) and is_secret(case, s[2][-1]): raise TwinIndexError(s)
             if not (-len(v) <= i < len(v)): raise TwinIndexError(s)
             v[i] = regs[s[3]]
+    return out
+
+
+def fixed_cases(p):
+    """accesses inside a region whose secret condition (input >= 2) may be false, with indexes inside and outside the array: the
+    constraints are the same for every index value and every condition value, and nothing is raised where the region is not taken"""
+    out = []
+    for two_d in (False, True):
+        for write in (False, True):
+            prog = [["input", 0, "priv", 0], ["input", 1, "priv", 1], ["input", 2, "priv", 2], ["input", 3, "priv", 3], ["input", 4, "priv", 4],
+                    ["const", 5, ["int", 2]], ["bin", 6, "ge", 4, 5]]
+            if two_d:
+                prog += [["arrnew", 7, [0, 1, 2]], ["const", 8, ["int", 7]], ["arrnew", 9, [1, 8, 0]], ["arrnew", 10, [7, 9]], ["const", 11, ["int", 1]]]
+                acc = ["arrset", 10, [11, 3], 2] if write else ["arrget", 12, 10, [11, 3]]
+                tail = [["arrget", 20 + 3 * i + j, 10, [30 + i, 40 + j]] for i in range(2) for j in range(3)]
+                consts = [["const", 30 + i, ["int", i]] for i in range(2)] + [["const", 40 + j, ["int", j]] for j in range(3)]
+            else:
+                prog += [["arrnew", 10, [0, 1, 2]]]
+                acc = ["arrset", 10, [3], 1] if write else ["arrget", 12, 10, [3]]
+                tail = [["arrget", 20 + j, 10, [40 + j]] for j in range(3)]
+                consts = [["const", 40 + j, ["int", j]] for j in range(3)]
+            prog += [["guarded", 6, [acc]]] + consts + tail
+            base = [1, 2, 3, 1, 0]
+            out.append(dict(cfg=dict(p=p, n=5, res=1, ign=0), prog=prog, ins=base, fixed=1,
+                            alt_ins=[[1, 2, 3, 2, 0], [1, 2, 3, 5, 0], [1, 2, 3, -1, 1], [1, 2, 3, 0, 3], [1, 2, 3, 2, 2], [3, 3, 1, 7, 1]]))
     return out
 
 
